@@ -251,7 +251,16 @@ fn invalid_utf8_frame(ctx: &mut Ctx, rng: &mut Rng) {
     let mut b = bits::BitBuf::new();
     b.push(1029, 12);
     b.push(rng.u64() as u128, 45);
-    b.push(String::from_utf8_lossy(&text).chars().count().min(127) as u128, 7);
+    // the character count field is whatever a foreign encoder made of it: plausible, zero, too small, too large
+    let plausible = String::from_utf8_lossy(&text).chars().count().min(127);
+    let chars = match rng.below(6) {
+        0 => 0,
+        1 => plausible.saturating_sub(1),
+        2 => rng.below(128) as usize,
+        3 => 127,
+        _ => plausible,
+    };
+    b.push(chars as u128, 7);
     b.push(text.len() as u128, 8);
     debug_assert_eq!(b.nbits, layout::M1029_TEXT_BIT);
     b.push_bytes(&text);
